@@ -2,11 +2,12 @@
 (whole / fraction / exponent sign / numerator / denominator), negation keeps the variant."""
 import re
 from collections import defaultdict
-from lib.facts import CallGraph, find, walk, is_node, path_of, render, render_stmt, render_pat, fns_in_type
+from lib.facts import CallGraph, find, walk, is_node, path_of, render, render_stmt, render_pat, fns_in_type, strip_refs
+from lib.provenance import Prov, within, comp_str, split_top, param_names
 from lib.mirq import Slice
 
 TECHNIQUE = ("table agreement parser leaf (prefix tag -> RealNumber variant) vs evaluator arm (variant -> from_str_radix radix); field-use and operand-order "
-             "rules on the float / scientific / rational evaluators; MIR provenance of the exponent-sign flag back to the parser that produced it; "
+             "rules on the float / scientific / rational evaluators (roles = components of the evaluator's parameter, followed through the locals by lib.provenance, independent of local spellings); MIR provenance of the exponent-sign flag back to the parser that produced it; "
              "deviant-sibling check of the negation arms")
 EXPLANATION = (
     "Decides structural clauses of C13 (narrow): (R1) every RealNumber variant a parser leaf constructs has an explicit evaluator arm in real(); (R2) the leaf "
@@ -73,46 +74,75 @@ def run(F, rep, tier):
             radixes = [render(c[2][1]) for c in find(body, "call") if (path_of(c[1]) or "").endswith("from_str_radix") and len(c[2]) == 2]
             rep.check(radixes == [radix], "C13-R2", "%s:radix" % var, "RealNumber::%s (prefix %s) is parsed with radix %s, expected %s" % (var, tag, radixes, radix),
                       sample={"variant": var, "prefix": tag, "evaluator": ev[0], "radix": radixes})
-    # R3 float / scientific / rational evaluators
-    def fmt_args(fn):
+    # R3 float / scientific / rational evaluators.  The roles (whole part, fraction, exponent sign, ...) are identified by the COMPONENT of the
+    # evaluator's parameter a value is computed from (lib.provenance), never by the spelling of the locals that carry them.
+    WHOLE, FRAC = (0, "0"), (0, "1")                                       # float(&(whole, fraction)), rational(&(numerator, denominator))
+    M_WHOLE, M_FRAC = (0, "0", "0"), (0, "0", "1")                         # scientific(&((whole, part), (sign, exp_whole, exp_part)))
+    E_SIGN, E_WHOLE, E_FRAC = (0, "1", "0"), (0, "1", "1"), (0, "1", "2")
+
+    def fmt_args(fn, P, spec='"{0}.{1}"', exact_spec=True):
+        """[[roots of argument i] ...] of every format!/format_args! in fn whose format string is `spec`"""
         out = []
         for m in find(lit[fn]["body"], "macro"):
-            if m[1].split("::")[-1] in ("format_args", "format") and m[2].startswith('"{0}.{1}"'):
-                out.append([a.strip() for a in m[2].split(",")[1:]])
+            if m[1].split("::")[-1] in ("format_args", "format"):
+                parts = split_top(m[2] or "")
+                if parts and (parts[0] == spec if exact_spec else parts[0].startswith(spec)):
+                    out.append([r for _, r in P.macro_args(m)[1:]])
         return out
+
+    def show(fa):
+        return [[sorted(comp_str(c) for c in r) for r in a] for a in fa]
     if rep.check("float" in lit, "C13-R3", "anchor:float", "float() not found"):
-        fa = fmt_args("float")
-        defs = {st[1][1]: render(st[2]) for st in find(lit["float"]["body"], "let") if len(st) == 4 and st[2] is not None and st[1][0] == "pident"}
-        ok = len(fa) == 1 and len(fa[0]) == 2 and re.search(r"\.0\b", defs.get(fa[0][0], "")) and re.search(r"\.1\b", defs.get(fa[0][1], ""))
-        rep.check(bool(ok), "C13-R3", "float:whole-then-fraction", "float() does not format `<whole>.<fraction>` from components (0, 1) in that order: %s %s" % (fa, defs))
+        P = Prov(lit["float"])
+        fa = fmt_args("float", P)
+        ok = len(fa) == 1 and len(fa[0]) == 2 and within(fa[0][0], WHOLE) and within(fa[0][1], FRAC)
+        rep.check(bool(ok), "C13-R3", "float:whole-then-fraction", "float() does not format `<whole>.<fraction>` from components (0, 1) of its argument in that order: %s" % show(fa))
     if rep.check("scientific" in lit, "C13-R3", "anchor:scientific", "scientific() not found"):
         body = lit["scientific"]["body"]
-        txt = " ; ".join(render_stmt(s) for s in body)
-        fa = fmt_args("scientific")
-        # tuple destructuring order
-        pats = [render_pat(st[1]) for st in body if st[0] == "let"]
-        rep.check(any(re.match(r"\(base, ?exp\)", p) for p in pats) and any(re.match(r"\(whole, ?part\)", p) for p in pats) and any(re.match(r"\(sign, ?exp_whole, ?exp_part\)", p) for p in pats),
-                  "C13-R3", "scientific:destructuring", "scientific() no longer destructures ((whole, part), (sign, exp_whole, exp_part)) in that order: %s" % pats)
-        defs = {st[1][1]: render(st[2]) for st in body if st[0] == "let" and st[2] is not None and st[1][0] == "pident"}
-        ok = len(fa) == 2 and re.match(r"whole\b", defs.get(fa[0][0], "")) and re.match(r"part\b", defs.get(fa[0][1], "")) and re.match(r"exp_whole\b", defs.get(fa[1][0], "")) and re.match(r"exp_part\b", defs.get(fa[1][1], ""))
-        rep.check(bool(ok), "C13-R3", "scientific:mantissa-and-exponent-components", "scientific() does not build mantissa from (whole, part) and exponent from (exp_whole, exp_part): %s" % fa)
-        neg = [n for n in find(body, "if") if render(n[1]).replace("*", "").strip() == "sign"]
-        okn = len(neg) == 1 and any(a[0] == "assign" and is_node(a[2]) and a[2][0] == "un" and a[2][1] == "-" and path_of(a[1]) == path_of(a[2][2]) for a in find(neg[0][2], "assign")) and neg[0][3] is None if neg else False
+        P = Prov(lit["scientific"])
+        fa = fmt_args("scientific", P)
+        # tuple destructuring: every component of ((whole, part), (sign, exp_whole, exp_part)) is bound to a local of its own
+        comps = (M_WHOLE, M_FRAC, E_SIGN, E_WHOLE, E_FRAC)
+        rep.check(all(c in P.bound for c in comps), "C13-R3", "scientific:destructuring",
+                  "scientific() no longer destructures its argument into ((whole, part), (sign, exp_whole, exp_part)): components bound to a local: %s" % sorted(comp_str(c) for c in P.bound))
+        mant = [a for a in fa if len(a) == 2 and within(a[0], M_WHOLE) and within(a[1], M_FRAC)]
+        expo = [a for a in fa if len(a) == 2 and within(a[0], E_WHOLE) and within(a[1], E_FRAC)]
+        ok = len(fa) == 2 and len(mant) == 1 and len(expo) == 1
+        # the decimal spelling `<whole>.<part>e<sign><exp_whole>` (when the function spells one) takes the same components in that order
+        for a in fmt_args("scientific", P, '"{0}.{1}e', exact_spec=False):
+            ok = ok and len(a) == 4 and within(a[0], M_WHOLE) and within(a[1], M_FRAC) and within(a[2], E_SIGN) and within(a[3], E_WHOLE)
+        rep.check(bool(ok), "C13-R3", "scientific:mantissa-and-exponent-components",
+                  "scientific() does not build mantissa from (whole, part) and exponent from (exp_whole, exp_part): %s" % show(fa + fmt_args("scientific", P, '"{0}.{1}e', exact_spec=False)))
+        neg = [n for n in find(body, "if") if P.exact(n[1]) == E_SIGN]
+        okn = False
+        if len(neg) == 1 and neg[0][3] is None:
+            okn = any(is_node(a[2]) and a[2][0] == "un" and a[2][1] == "-" and path_of(a[1]) and path_of(a[1]) == path_of(a[2][2]) and within(P.roots(a[2][2]), (0, "1")) and
+                      not any(within([r], E_SIGN) for r in P.roots(a[2][2])) for a in find(neg[0][2], "assign"))
         rep.check(bool(okn), "C13-R3", "scientific:sign-negates-exponent", "scientific() does not negate the exponent exactly when the sign flag is set")
-        rep.check("powf" in txt or "powi" in txt, "C13-R3", "scientific:power-of-ten", "scientific() does not scale the mantissa by a power of ten")
+        # scaling: <mantissa> * 10^<exponent> - the power's argument is computed from the exponent components only
+        pows = [m for m in find(body, "mcall") if m[2] in ("powf", "powi")] + [c for c in find(body, "call") if (path_of(c[1]) or "").split("::")[-1] in ("powf", "powi")]
+        okp = bool(pows) and all(within(P.roots(m[4] if m[0] == "mcall" else m[2][1:]), (0, "1")) for m in pows)
+        rep.check(okp, "C13-R3", "scientific:power-of-ten", "scientific() does not scale the mantissa by a power of ten whose exponent is computed from the exponent components")
     if rep.check("rational" in lit, "C13-R3", "anchor:rational", "rational() not found"):
         body = lit["rational"]["body"]
+        P = Prov(lit["rational"])
         news = [c for c in find(body, "call") if (path_of(c[1]) or "").endswith("R64::new")]
-        pats = [render_pat(st[1]) for st in body if st[0] == "let"]
-        ok = len(news) == 1 and [render(a) for a in news[0][2]] == ["num", "denom"] and any(re.match(r"\(num, ?denom\)", p) for p in pats)
+        ok = len(news) == 1 and len(news[0][2]) == 2 and within(P.roots(news[0][2][0]), WHOLE) and within(P.roots(news[0][2][1]), FRAC) and WHOLE in P.bound and FRAC in P.bound
         rep.check(ok, "C13-R3", "rational:numerator-then-denominator", "rational() does not construct R64::new(num, denom) from the (numerator, denominator) pair in that order")
         # zero test precedes construction
+        def zero_test(c):
+            if not (is_node(c) and c[0] == "bin" and c[1] == "=="):
+                return False
+            for x, z in ((c[2], c[3]), (c[3], c[2])):
+                if is_node(z) and z[0] == "int" and z[1] == "0" and path_of(strip_refs(x)) and within(P.roots(x), FRAC):
+                    return True
+            return False
         idx_new = None
         idx_test = None
         for i, st in enumerate(body):
             if any(True for c in find(st, "call") if (path_of(c[1]) or "").endswith("R64::new")) and idx_new is None:
                 idx_new = i
-            if st[0] == "expr" and is_node(st[1]) and st[1][0] == "if" and re.search(r"denom ?== ?0", render(st[1][1])) and idx_test is None:
+            if st[0] == "expr" and is_node(st[1]) and st[1][0] == "if" and zero_test(st[1][1]) and idx_test is None:
                 idx_test = i
         rep.check(idx_test is not None and idx_new is not None and idx_test < idx_new, "C13-R3", "rational:zero-denominator-test-first", "rational() does not test the denominator for zero before constructing the value")
     # exponent sign provenance (MIR, parser side)
@@ -174,7 +204,7 @@ def run(F, rep, tier):
                     b_ = p[2][0][1]
                     n += 1
                     calls = [c for c in find(arm[2], "call") if path_of(c[1]) == "Value::" + v]
-                    ok = len(calls) == 1 and any(u[1] == "-" and b_ in render(u[2]) for u in find(calls[0], "un"))
+                    ok = len(calls) == 1 and any(u[1] == "-" and any(x[1] == b_ for x in find(u[2], "path")) for u in find(calls[0], "un"))
                     rep.check(ok, "C13-R4", "negated:%s" % v, "negated(): the arm for Value::%s does not produce Value::%s(-value): `%s`" % (v, v, render(arm[2])[:80]), sample={"variant": v})
         rep.floor("C13-R4", "negation arms", n, 5)
     from rules.k2_targets import run_k2
@@ -187,7 +217,7 @@ def run(F, rep, tier):
         found = 0
         for m in find(real["body"], "match"):
             for arm in m[2]:
-                if "RealNumber::TypedInteger" not in render_pat(arm[0]):
+                if not pat_has_variant(arm[0], "TypedInteger"):
                     continue
                 found += 1
                 wrapped = sorted({re.match(r"RealNumber::(\w+)$", c[1][1]).group(1) for c in find(arm[2], "call")
@@ -221,6 +251,65 @@ def run(F, rep, tier):
     run_r8(F, rep)
 
 
+def pat_has_variant(pat, variant):
+    """the pattern names the enum variant (as a path segment of a tuple-struct / path / struct pattern; binding names are not looked at)"""
+    return any(x[0] in ("pts", "ppath", "pstruct") and isinstance(x[1], str) and x[1].split("::")[-1] == variant for x in walk(pat))
+
+
+_FLOAT_TY = ("f64", "f32")
+
+
+def _value_type(e):
+    """float type an expression evidently has by its own form (a cast, a suffixed literal, parse::<f64>() possibly unwrapped), else None"""
+    while is_node(e) and ((e[0] == "mcall" and e[2] in ("unwrap", "expect", "unwrap_or", "unwrap_or_default", "abs", "clone")) or e[0] == "try" or (e[0] == "un" and e[1] in ("-", "*")) or e[0] == "ref"):
+        e = e[1] if e[0] in ("mcall", "try") else e[2]
+    if not is_node(e):
+        return None
+    if e[0] == "cast" and re.sub(r"\s", "", e[2]) in _FLOAT_TY:
+        return e[2]
+    if e[0] == "int" and len(e) > 2 and e[2] in _FLOAT_TY:
+        return e[2]
+    if e[0] == "lit" and re.match(r"^[0-9][0-9_]*(\.[0-9_]*)?([eE][+-]?[0-9_]+)?(_?f(32|64))?$", str(e[1])) and re.search(r"[.eE]|f(32|64)$", str(e[1])):
+        return "f64"
+    if e[0] == "mcall" and e[2] == "parse" and re.sub(r"[:<>\s]", "", e[3] or "") in _FLOAT_TY:
+        return "f64"
+    if e[0] == "mcall" and e[2] in ("powf", "powi", "sqrt", "mul_add", "exp", "exp2", "exp10", "ln", "log10", "floor", "ceil", "round", "trunc", "fract"):
+        return "f64"
+    if e[0] == "call" and re.match(r"^(f64|f32)::", path_of(e[1]) or ""):
+        return "f64"
+    return None
+
+
+def float_locals(body):
+    """locals of a body that hold a float by their declaration (`: f64`) or by the evident type of their initialiser, closed under float arithmetic"""
+    fl = set()
+    for _ in range(4):
+        for st in find(body, "let"):
+            pat, init = st[1], st[2]
+            ty = None
+            if pat[0] == "ptype":
+                ty, pat = re.sub(r"\s", "", pat[2]), pat[1]
+            if pat[0] != "pident":
+                continue
+            if ty in _FLOAT_TY or (init is not None and (_value_type(init) or (is_node(init) and init[0] == "bin" and is_float_arith(init, fl)) or
+                                                         (is_node(init) and init[0] == "path" and init[1] in fl))):
+                fl.add(pat[1])
+    return fl
+
+
+def is_float_arith(e, fl):
+    """a binary arithmetic expression with an operand that is evidently a float (by form, or a float local)"""
+    for x in (e[2], e[3]):
+        y = x
+        while is_node(y) and ((y[0] == "un" and y[1] in ("-", "*")) or y[0] == "ref"):
+            y = y[2]
+        if _value_type(y) or (is_node(y) and y[0] == "path" and y[1] in fl):
+            return True
+        if is_node(y) and y[0] == "bin" and y[1] in ("*", "/", "+", "-") and is_float_arith(y, fl):
+            return True
+    return False
+
+
 def run_r8(F, rep):
     """C13-R8: float-valued literal evaluators return what the correctly rounded parser returns"""
     from lib import guards as G
@@ -236,27 +325,13 @@ def run_r8(F, rep):
         parses = [m for m in find(body, "mcall") if m[2] == "parse" and (m[3] or "").replace(" ", "").lstrip(":") == "<f64>"]
         n_parse += len(parses)
         rep.check(bool(parses), "C13-R8", "%s:parses-f64" % name, "%s() no longer obtains its value from str::parse::<f64>()" % name, "%s (mech_interpreter.lib)" % name)
-        # the exponent's fractional digits: 3rd component of the exponent tuple, and strings collected from it
-        frac_vars = set()
-        if name == "scientific":
-            for st in find(body, "let"):
-                if st[1][0] == "ptype" and st[1][1][0] == "ptuple" and len(st[1][1][1]) == 3:
-                    p3 = st[1][1][1][2]
-                    if p3[0] == "pident":
-                        frac_vars.add(p3[1])
-                elif st[1][0] == "ptuple" and len(st[1][1]) == 3 and st[1][1][2][0] == "pident":
-                    frac_vars.add(st[1][1][2][1])
-            changed = True
-            while changed:
-                changed = False
-                for st in find(body, "let"):
-                    if st[1][0] == "pident" and st[2] is not None and st[1][1] not in frac_vars and any(n[0] == "path" and n[1] in frac_vars for n in walk(st[2])) and \
-                            not any(n[0] == "macro" for n in walk(st[2])):
-                        frac_vars.add(st[1][1])
-                        changed = True
+        # the exponent's fractional digits: 3rd component of the exponent tuple of scientific()'s argument (and whatever is computed from it alone)
+        P = Prov(it)
+        frac = (0, "1", "2") if name == "scientific" else None
+        fl = float_locals(body)
         ariths = []
         for e, facts in G.sites(body, "bin"):
-            if e[1] in ("*", "/", "+", "-", "*=", "/=", "+=", "-=") and re.search(r"f64|powf|powi", render(e)):
+            if e[1] in ("*", "/", "+", "-", "*=", "/=", "+=", "-=") and is_float_arith(e, fl):
                 ariths.append((e, facts))
         for e, facts in G.sites(body, "mcall"):
             if e[2] in ("powf", "powi", "mul_add", "exp", "exp2", "exp10") and not any(e is x or any(y is e for y in walk(x)) for x, _ in ariths):
@@ -264,13 +339,13 @@ def run_r8(F, rep):
         for e, facts in ariths:
             guarded = False
             for c, pol in G.atoms(facts):
-                if not pol and any(n[0] == "path" and n[1] in frac_vars for n in walk(c)):
+                if not pol and frac is not None and within(P.roots(c), frac):
                     guarded = True
-            key = "%s:float-arithmetic:%s" % (name, re.sub(r"\s", "", render(e))[:50])
+            key = "%s:float-arithmetic:%s" % (name, re.sub(r"\s", "", P.shape(e))[:50])
             rep.check(guarded, "C13-R8", key if not guarded else "%s:arithmetic-only-for-fractional-exponent" % name,
                       "%s() computes `%s` on the way to its result%s: the literal is rounded twice (e.g. 4.35e2 -> 434.99999999999994, a 17-digit mantissa divided by a power of ten is 1 ulp off) instead of "
-                      "being the nearest f64 of its spelling" % (name, render(e)[:70], "" if not frac_vars else " on paths where the exponent has no fractional digits"),
-                      "%s (mech_interpreter.lib)" % name, sample={"fn": name, "arithmetic": render(e)[:70], "guard_vars": sorted(frac_vars)})
+                      "being the nearest f64 of its spelling" % (name, render(e)[:70], "" if frac is None else " on paths where the exponent has no fractional digits"),
+                      "%s (mech_interpreter.lib)" % name, sample={"fn": name, "arithmetic": P.shape(e)[:70], "guard_component": comp_str(frac) if frac else None})
     rep.floor("C13-R8", "parse::<f64>() sites in the float evaluators", n_parse, 3)
     run_r9(F, rep)
 
@@ -284,7 +359,8 @@ def run_r9(F, rep):
         return
     body = its[0]["body"]
     parses = [re.sub(r"[:<>\s]", "", m[3] or "") for m in find(body, "mcall") if m[2] == "parse"]
-    casts = [render(c)[:40] for c in find(body, "cast")]
+    P = Prov(its[0])
+    casts = [P.shape(c)[:40] for c in find(body, "cast")]
     radix = [path_of(c[1]) for c in find(body, "call") if (path_of(c[1]) or "").endswith("from_str_radix")]
     types = sorted(set(parses) | {p.split("::")[0] for p in radix})
     ok = (len(parses) + len(radix)) >= 2 and types == ["i64"] and not casts
@@ -317,14 +393,18 @@ def run_r10(F, rep):
     exact_path = int_parse(its["typed_literal"]["body"])
     # helpers of the same module that typed_literal calls with the literal (one level)
     mod_fns = {it["name"]: it for it in F.syn("mech_interpreter.lib") if it["k"] == "fn" and it.get("mod", "").endswith("literals") and it.get("body")}
+    # "the literal" is the first parameter of typed_literal (type &Literal), under whatever name, and locals that alias it
+    P = Prov(its["typed_literal"])
+    lp = param_names(its["typed_literal"], r"^&?\s*Literal$")
+    LTRL = (lp[0][0],) if lp else (0,)
     for c in find(its["typed_literal"]["body"], "call"):
         h = (path_of(c[1]) or "").split("::")[-1]
-        if h in mod_fns and h not in ("literal", "kind_annotation", "typed_literal") and any(x[0] == "path" and x[1] == "ltrl" for a in c[2] for x in walk(a)):
+        if h in mod_fns and h not in ("literal", "kind_annotation", "typed_literal") and any(within(P.roots(a), LTRL) for a in c[2]):
             exact_path += int_parse(mod_fns[h]["body"])
     # the TypedInteger arm of real()
     for m in find(its["real"]["body"], "match"):
         for a in m[2]:
-            if "TypedInteger" in render_pat(a[0]):
+            if pat_has_variant(a[0], "TypedInteger"):
                 exact_path += int_parse(a[2])
     ok = bool(exact_path) or not via_f64
     rep.check(ok, "C13-R10", "typed-integer:exact-digits" if ok else "typed-integer:digits-through-f64",
